@@ -35,6 +35,9 @@ def run(ctx):
     from .. import rules_regions as RR
     RR.check_regions(ctx, 'R5.5', quick=True)
     RR.check_quote_agreement(ctx, 'R5.5')
+    from .. import rules_lexer as RL
+    ctx.rule('R5.6', 'the lexer sees the whole input at once: regions cannot straddle a chunk boundary', floor=3)
+    RL.check_whole_text(ctx, 'R5.6')
 
 
 def check_structural_chars(ctx):
